@@ -6,7 +6,7 @@
    regime rule REGENERATED from odl/space/npy_tensors.py:_lincomb_impl into
    Gen/Lincomb.v on every run.  A store maps object identities to array
    contents; `x1 is x2` is equality of identities. *)
-From Coq Require Import ZArith Reals List Bool.
+From Coq Require Import ZArith Reals List Bool Lia.
 From Verif Require Import Base.Num Base.Vec C01.Syntax Gen.Lincomb C01.Carriers C01.Model C01.Laws C01.Proofs C01.ProofsPoison.
 Import ListNotations.
 
@@ -89,3 +89,77 @@ Theorem set_zero_direct_refuted :
     /\ s' i <> map (fun _ => Some nzero) (s i).
 Proof. exact @set_zero_direct_counterexample. Qed.
 Print Assumptions set_zero_direct_refuted.
+
+(* ---------------------------------------------------------------------------
+   Arbitrarily nested product spaces (and discretized spaces, whose elements
+   delegate to their coefficient tensor = a leaf).  [ps_lincomb] is the
+   component-wise recursion of ProductSpace._lincomb; [quads sp x1 x2 out] lists
+   the leaf positions (floating?, leaf of x1, leaf of x2, leaf of out) in
+   traversal order; [conf] = "has the shape of the space" (what `x in space`
+   checks); [wf] = positional aliasing: a leaf of [out] may coincide with operand
+   leaves only at its own position (out is x1, out is x2, shared components),
+   never with a leaf of a later position.
+   T1 (induction on the nested space + induction on the leaf sequence): at EVERY
+   leaf the output holds a*x1 + b*x2 of the INITIAL operand leaves (converted to
+   the leaf dtype for non-floating leaves); nothing but the leaves of out changes. *)
+From Verif Require Import C01.ModelSpace C01.ProofsSpace.
+
+Theorem pspace_lincomb_correct :
+  forall (T : Type) (N : Num T) (F : NumField T)
+         (lay : nat -> nat -> nat -> bool) (icast : T -> T)
+         (sp : space) (a b : T) (x1 x2 out : elem) (s : store T),
+  conf sp x1 -> conf sp x2 -> conf sp out ->
+  wf (quads sp x1 x2 out) -> lens_ok s (quads sp x1 x2 out) ->
+  exists s', ps_lincomb lay icast sp a x1 b x2 out s = Ok s'
+    /\ (forall q, In q (quads sp x1 x2 out) ->
+          s' (q_out q) = map (cast_of icast (q_fl q)) (vlin a (s (q_x1 q)) b (s (q_x2 q))))
+    /\ (forall j, ~ In j (map q_out (quads sp x1 x2 out)) -> s' j = s j).
+Proof. exact @ps_lincomb_correct. Qed.
+Print Assumptions pspace_lincomb_correct.
+
+(* element-wise product and quotient (space.multiply / space.divide, hence x*y, x/y,
+   x *= y, x /= y and the multiplications inside x**n), same quantifiers *)
+Theorem pspace_multiply_correct :
+  forall (T : Type) (N : Num T) (sp : space) (x1 x2 out : elem) (s : store T),
+  conf sp x1 -> conf sp x2 -> conf sp out ->
+  wf (quads sp x1 x2 out) -> lens_ok s (quads sp x1 x2 out) ->
+  exists s', ps_multiply sp x1 x2 out s = Ok s'
+    /\ (forall q, In q (quads sp x1 x2 out) -> s' (q_out q) = vmul (s (q_x1 q)) (s (q_x2 q)))
+    /\ (forall j, ~ In j (map q_out (quads sp x1 x2 out)) -> s' j = s j).
+Proof. exact @ps_multiply_correct. Qed.
+Print Assumptions pspace_multiply_correct.
+
+Theorem pspace_divide_correct :
+  forall (T : Type) (N : Num T) (sp : space) (x1 x2 out : elem) (s : store T),
+  conf sp x1 -> conf sp x2 -> conf sp out ->
+  (forall q, In q (quads sp x1 x2 out) -> q_fl q = true) ->       (* floating leaves: integer true division raises *)
+  wf (quads sp x1 x2 out) -> lens_ok s (quads sp x1 x2 out) ->
+  exists s', ps_divide sp x1 x2 out s = Ok s'
+    /\ (forall q, In q (quads sp x1 x2 out) -> s' (q_out q) = vdiv (s (q_x1 q)) (s (q_x2 q)))
+    /\ (forall j, ~ In j (map q_out (quads sp x1 x2 out)) -> s' j = s j).
+Proof. exact @ps_divide_correct. Qed.
+Print Assumptions pspace_divide_correct.
+
+(* the aliasing hypothesis holds (1) for a fresh output element and (2) in place *)
+Theorem wf_fresh_output :
+  forall l : list quad,
+  NoDup (map q_out l) ->
+  (forall q q', In q l -> In q' l -> q_x1 q' <> q_out q /\ q_x2 q' <> q_out q) ->
+  wf l.
+Proof. exact wf_fresh. Qed.
+Theorem wf_in_place :
+  forall l : list quad,
+  NoDup (map q_out l) ->
+  (forall q, In q l -> q_x1 q = q_out q) ->
+  (forall q q', In q l -> In q' l -> q_x2 q' = q_out q -> q_out q' = q_out q) ->
+  wf l.
+Proof. exact wf_inplace. Qed.
+
+(* non-vacuity on a nested space  X x (Y x Z):  x += y, x += x, and z = x + y *)
+Example nested_hypotheses_hold :
+  let sp := SNode (SCons (SLeaf true) (SCons (SNode (SCons (SLeaf true) (SCons (SLeaf false) SNil))) SNil)) in
+  let e := fun i j k => Node (ECons (Leaf i) (ECons (Node (ECons (Leaf j) (ECons (Leaf k) ENil))) ENil)) in
+  let x := e 0 1 2 in let y := e 3 4 5 in let z := e 6 7 8 in
+  (conf sp x /\ conf sp y /\ conf sp z) /\
+  wf (quads sp x y x) /\ wf (quads sp x x x) /\ wf (quads sp x y z) /\ wf (quads sp x x z).
+Proof. cbn. intuition lia. Qed.
